@@ -31,8 +31,8 @@ fn do_instr(start: usize, hay: &str, needle: &str) -> Result<i32, RuntimeError> 
     } else {
         let mut i: usize = start - 1;
         while i + needle.len() <= hay.len() {
-            let sub = hay.get(i..(i + needle.len())).unwrap();
-            if sub == needle {
+            // the range is not a valid slice in the middle of a multi-byte character
+            if hay.get(i..(i + needle.len())) == Some(needle) {
                 return Ok((i as i32) + 1);
             }
             i += 1;
